@@ -104,7 +104,8 @@ def part_a(rec, li, n, seed, only=None):
         m = S.pos_len(fr, n)
         if m < 1:
             continue
-        base = rows(m, seed)
+        base0 = rows(m, seed)
+        ncall = 0
         for rule, fv in RULES:
             for supply in supplies_for(rule, fv):
                 gkw, ckw = supply_kwargs("X", rule, fv, supply)
@@ -116,6 +117,11 @@ def part_a(rec, li, n, seed, only=None):
                         case = dict(part="a", li=li, n=n, fr=fr, to=to, rule=rule, fv=fv, supply=supply, op=op, omit=omit)
                         if only is not None and only != case:
                             continue
+                        base = base0
+                        # consecutive calls on one Grid never carry the same values (1x, 2x, 3x: still exact)
+                        ncall += 1
+                        scale = float(1 + ncall % 3)
+                        base = base0 * scale
                         da = xr.DataArray(base.copy(), dims=["b", S.dimname("X", fr)])
                         if g is None:
                             g = build_grid({"X": layout}, {"X": n}, gkw)
